@@ -425,6 +425,8 @@ package interpreter
 // a declared return type: the response is built from the route's value only after CheckType accepted it
 //@ func (*Interpreter).ExecuteRoute
 //@   assertat "switch r := result.(type) {" route.ReturnType != nil ==> checkOK(result, route.ReturnType)
+// (the same for a value returned with an explicit success status, `> value :: 201`; an error status carries a guard's error body)
+//@   assertat "StatusCode: sr.StatusCode," route.ReturnType != nil && sr.StatusCode >= 200 && sr.StatusCode < 300 ==> checkOK(sr.Body, route.ReturnType)
 
 // (arrays are values: a built-in that returns an array returns one it has just made - never an argument's
 // backing array or a window onto it, which a later in-place operation on either would corrupt)
